@@ -95,6 +95,8 @@ def gen_workload(tape):
         if a is not None and b is not None:
             w["exclude_periods"].append(sorted([a, b]))
     w["exclude_via"] = tape.pick(["ctor", "methods"], "exvia")
+    w["path_setter"] = tape.choice(1 + len(C1.DECOYS), "path_setter") \
+        if tape.flag("via_path_setter", 1, 5) else 0
     # two caller threads share the FileSet (see props/c01.py)
     w["two_callers"] = w["backend"] == "sim" and tape.flag("two_callers", 1, 6)
     w["line_stride"] = 7 + tape.choice(40, "linestride") if w["two_callers"] else 0
